@@ -579,3 +579,84 @@ def check_watchdog(events, meta, pattern):
         if redial is None or redial[0] > drop[0] + 1.0:
             V.append((f"silent-link-not-redialled:{fl}", f"silent link dropped at t={drop[0]}, re-dial at {redial[0] if redial else None}"))
     return V
+
+
+# ---------------------------------------------------------------------------
+def run_threaded_stream(kind, seed, stream, cuts, version="2.2"):
+    """Feed a byte stream in chunks to the REAL threaded serial / TCP gateway (reader thread, poll thread,
+    SyncTransport.send) under the thread simulation. Returns (projection, written lines, thread errors)."""
+    from . import simthreads as S
+    from .drive import projection
+    import mysensors.gateway_serial as mgs
+    import mysensors.gateway_tcp as mgt
+
+    sim = S.new_sim(seed)
+    S.install()
+    devs = []
+
+    class SerMod:
+        SerialException = serial.SerialException
+        PortNotOpenError = serial.PortNotOpenError
+        threaded = serial.threaded
+        tools = getattr(serial, "tools", None)
+
+        def serial_for_url(self, port, baud=None, timeout=None, **kw):
+            d = S.FakeSerial(len(devs) + 1, timeout)
+            devs.append(d)
+            return d
+
+        def __getattr__(self, n):
+            return getattr(serial, n)
+
+    class SockMod:
+        timeout = _socket.timeout
+
+        def create_connection(self, addr, timeout=None, **kw):
+            d = S.FakeSock(len(devs) + 1)
+            d.answer = 0.05
+            devs.append(d)
+            return d
+
+        def __getattr__(self, n):
+            return getattr(_socket, n)
+
+    mgs.serial = SerMod()
+    mgt.socket = SockMod()
+    mgt.select = S.FakeSelect()
+    try:
+        if kind == "serial":
+            gw = mgs.SerialGateway("/dev/fake", protocol_version=version, reconnect_timeout=50.0, timeout=1.0)
+        else:
+            gw = mgt.TCPGateway("10.0.0.1", protocol_version=version, reconnect_timeout=50.0)
+        made = []
+        gw.on_conn_made = lambda *a: made.append(1)
+        gw.start()
+        t_end = sim.now + 5
+        while sim.now < t_end and not made:
+            sim.block(until=sim.now + 0.05)
+        if not devs or not made:
+            return None, None, ["no connection"]
+        d = devs[-1]
+        prev = 0
+        for c in cuts:
+            if c <= prev:
+                continue
+            if kind == "serial":
+                d.buf += stream[prev:c]
+            else:
+                d.rbuf += stream[prev:c]
+            prev = c
+            sim.block(until=sim.now + sim.rng.choice([0.0, 0.001, 0.03, 0.2]))
+        sim.block(until=sim.now + 3.0)
+        t_end = sim.now + 20
+        while sim.now < t_end and (gw.tasks.queue or (d.buf if kind == "serial" else d.rbuf)):
+            sim.block(until=sim.now + 0.1)
+        state = projection(gw.sensors)
+        writes = [e[3].decode("utf-8", "replace") for e in sim.log if e[1] == "WRITE" and b";255;3;0;2;" not in e[3]]
+        gw.stop()
+        sim.block(until=sim.now + 3.0)
+        errs = [(n, type(e).__name__, str(e)[:100]) for n, e in sim.thread_errors]
+        return state, writes, errs
+    finally:
+        sim.shutdown()
+        S.uninstall()
